@@ -294,6 +294,9 @@ def execute(sc, ctx):
         arrived = sum(len(after[r] - before[r]) for r in remotes)
         if any(o.endswith(".dir") for r in remotes for o in after[r] - before[r]):
             dir_moved = True
+        if pushed > arrived:
+            ctx.violate("pushed-count-exceeds-arrivals", f"round{rnd}:{'fault' if fired else 'clean'}",
+                        f"push reported {pushed} objects pushed but only {arrived} new objects are in the remotes (failed={failed})")
         if not nested:
             had_to = sum(len(set(want_min["remote"][r]) - before[r]) for r in remotes)
             # an object shared by two (remote, cache) groups is attempted by both
